@@ -138,8 +138,14 @@ IMMUTABLE_TYPES = (bytes, str, int, float, bool, type(None), frozenset, complex)
 
 def runtime_immutable(v, depth=0):
     import re as _re
+    import types as _types
     if isinstance(v, IMMUTABLE_TYPES) or isinstance(v, _re.Pattern):
         return True
+    if isinstance(v, type) or isinstance(v, (_types.FunctionType, _types.BuiltinFunctionType)) and \
+            getattr(v, "__self__", None) is None:
+        return True              # a class or a plain function is not a container of session state
+    if isinstance(v, (_types.BuiltinMethodType, _types.MethodType)) and depth < 4:
+        return runtime_immutable(getattr(v, "__self__", None), depth + 1)
     if isinstance(v, tuple) and depth < 4:
         return all(runtime_immutable(x, depth + 1) for x in v)
     return False
@@ -222,9 +228,9 @@ def sites_of(path, live=None):
                         containers[t.id] = kind_of(value)
                     continue
                 for t in targets:
-                    if live is not None and isinstance(t, ast.Name) and isinstance(value, ast.Call) \
+                    if live is not None and isinstance(t, ast.Name) and not isinstance(node, ast.AugAssign) \
                             and hasattr(live, t.id) and runtime_immutable(getattr(live, t.id)):
-                        consts.add(t.id)      # built by a helper, but an immutable value
+                        consts.add(t.id)      # built by a helper / a tuple of classes ..., but an immutable value
                         continue
                     out.append("module:%s=%s" % (ast.unparse(t), kind_of(value)))
             elif isinstance(node, (ast.If, ast.Try, ast.With, ast.For, ast.While)):
@@ -263,6 +269,8 @@ def sites_of(path, live=None):
             return None
         if isinstance(p, ast.Starred):
             return None
+        if isinstance(p, ast.keyword) and p.arg is None:
+            return None          # f(**NAME): the call receives a copy
         return "escape"
 
     def short(t):
@@ -386,6 +394,13 @@ def sites_of(path, live=None):
                 if v is not None and not isinstance(sub, ast.AugAssign) and (pure_value(v) or is_field_decl(v)):
                     continue
                 for t in targets:
+                    if live is not None and isinstance(t, ast.Name) and not qual_prefix:
+                        lv = getattr(getattr(live, node.name, None), "__dict__", {}).get(t.id)
+                        if lv is not None and type(lv).__module__.endswith("astm.fields") and any(
+                                c.__name__ == "Field" for c in type(lv).__mro__):
+                            continue      # a schema declaration made through a helper: covered by the schema tables
+                        if lv is not None and runtime_immutable(lv):
+                            continue
                     out.append("class:%s%s.%s=%s" % (qual_prefix, node.name, ast.unparse(t), kind_of(v)))
             elif isinstance(sub, (ast.For, ast.While, ast.If, ast.With, ast.Try, ast.Delete)):
                 out.append("class:%s%s:<%s>" % (qual_prefix, node.name, type(sub).__name__.lower()))
@@ -413,6 +428,47 @@ def sites_of(path, live=None):
             out.append("module:%s=%s" % (name, containers[name]))
             out.extend(uses)
     return sorted(set(out))
+
+
+def api_of(path):
+    """public surface of a module: module-level functions and the methods of its classes that do not start with an
+    underscore (plus __init__ / __call__), each with its parameter list as written - names, order, defaults"""
+    with open(path, encoding="utf-8") as fh:
+        tree = ast.parse(fh.read(), path)
+    out = []
+
+    def sig(fn, qual):
+        import copy as _copy
+        args = _copy.deepcopy(fn.args)
+        for a in args.posonlyargs + args.args + args.kwonlyargs + [x for x in (args.vararg, args.kwarg) if x is not None]:
+            a.annotation = None          # annotations do not change behaviour
+        out.append("%s%s(%s)" % ("async " if isinstance(fn, ast.AsyncFunctionDef) else "", qual, ast.unparse(args)))
+
+    def walk(body, prefix):
+        for node in body:
+            if isinstance(node, (ast.FunctionDef, ast.AsyncFunctionDef)):
+                if not node.name.startswith("_") or node.name in ("__init__", "__call__"):
+                    sig(node, prefix + node.name)
+            elif isinstance(node, ast.ClassDef) and not node.name.startswith("_"):
+                out.append("class %s%s(%s)" % (prefix, node.name, ", ".join(ast.unparse(b) for b in node.bases)))
+                walk(node.body, prefix + node.name + ".")
+            elif isinstance(node, (ast.If, ast.Try)):
+                for fld in ("body", "orelse", "finalbody"):
+                    walk(getattr(node, fld, []) or [], prefix)
+                for h in getattr(node, "handlers", []) or []:
+                    walk(h.body, prefix)
+    walk(tree.body, "")
+    return sorted(out)
+
+
+def constant_values(repo, live):
+    """NAME=repr(value) of every upper-case name of constants.py"""
+    out = []
+    if live is not None:
+        for name in sorted(dir(live)):
+            if name.isupper():
+                out.append("%s=%r" % (name, getattr(live, name)))
+    return out
 
 
 def collect(repo):
@@ -447,16 +503,25 @@ def collect(repo):
         if os.path.exists(p):
             try:
                 res[m] = sites_of(p, live_mods.get(m))
+                res[m + "#api"] = api_of(p)
             except SyntaxError as exc:
                 res[m] = ["unparsable:%s" % exc.msg]
+                res[m + "#api"] = ["unparsable"]
+    res["constants#values"] = constant_values(repo, live_mods.get("constants"))
     # instrument modules: only what is not a schema declaration or a pattern (module-level code, functions with state)
     inst = os.path.join(src, "instruments")
     extra = []
     if os.path.isdir(inst):
         for fn in sorted(os.listdir(inst)):
             if fn.endswith(".py") and fn != "__init__.py":
+                live_i = None
                 try:
-                    sites = sites_of(os.path.join(inst, fn))
+                    import importlib
+                    live_i = importlib.import_module("senaite.astm.instruments." + fn[:-3])
+                except Exception:
+                    pass
+                try:
+                    sites = sites_of(os.path.join(inst, fn), live_i)
                 except SyntaxError as exc:
                     sites = ["unparsable:%s" % exc.msg]
                 for s in sites:
